@@ -80,9 +80,12 @@ type scheduler struct {
 	cur      *gthread
 	preempts int
 	delays   int // deviations from the round-robin order used so far (delay-bounded scheduling)
-	timers   []*vtimer
-	nchan    int
-	wg       sync.WaitGroup
+
+	busyStart int64 // virtual time at which the current count of timer wake-ups started
+	busyFires int
+	timers    []*vtimer
+	nchan     int
+	wg        sync.WaitGroup
 
 	mu       sync.Mutex
 	finished bool
@@ -342,8 +345,32 @@ func (s *scheduler) fireTimer() bool {
 		s.px.clock = best.deadline
 	}
 	s.checkHorizon()
+	s.checkBusyWait()
 	s.fire(best)
 	return true
+}
+
+// checkBusyWait: a goroutine polling with tiny sleeps for something that never happens wakes up
+// through a timer again and again while virtual time hardly moves; the 6-hour horizon would take
+// 10^13 wake-ups. More than 20000 timer wake-ups (with every goroutine blocked each time) inside one
+// virtual second are reported as a stall.
+func (s *scheduler) checkBusyWait() {
+	if s.busyStart == 0 || s.px.clock-s.busyStart > 1e9 {
+		s.busyStart, s.busyFires = s.px.clock, 0
+	}
+	s.busyFires++
+	if s.busyFires > 20000 {
+		var sb []string
+		for _, t := range s.threads {
+			if !t.done {
+				sb = append(sb, fmt.Sprintf("g%d(%s): %s", t.id, t.name, t.desc))
+			}
+		}
+		sort.Strings(sb)
+		msg := fmt.Sprintf("busy wait: %d timer wake-ups within one virtual second with every goroutine blocked: %v", s.busyFires, sb)
+		s.px.addCandidate("stall", "stall", msg, "", nil, nil)
+		panic(pathEnd{stCrashed, msg})
+	}
 }
 
 // checkHorizon: when only timers keep the program going for longer than the virtual-time horizon,
